@@ -357,6 +357,12 @@ fn c11_table_pending() {
     if c3 {
         set.catch_signal(SIGHUP); // no trap
     }
+    // a trap set for ANOTHER condition between delivery and the next command boundary must not
+    // lose the pending deliveries
+    let other: bool = kani::any();
+    if other {
+        now(set.set_action(&sys, SIGQUIT, Action::Ignore, Location::default(), false)).unwrap();
+    }
     let mut got_usr1 = 0;
     let mut got_term = 0;
     let mut k = 0;
@@ -373,6 +379,7 @@ fn c11_table_pending() {
     assert!(got_usr1 == c1 as u8 && got_term == c2 as u8, "C11 each caught signal is handed out exactly once");
     assert!(set.take_signal_if_caught(SIGUSR1).is_none(), "C11 nothing left pending");
     kani::cover!(c1 && c2, "two different pending signals");
+    kani::cover!(other && c1, "trap command between delivery and hand-out");
     std::mem::forget(set);
     std::mem::forget(keep);
 }
